@@ -33,6 +33,9 @@ static void compare(EVP_PKEY *a, int apriv, EVP_PKEY *b, int bpriv, int *same_pu
 	int ba = EVP_PKEY_get_base_id(a), bb = EVP_PKEY_get_base_id(b);
 	*same_pub = 0; *same_priv = -1;
 	snprintf(detail, dl, "types %d/%d", ba, bb);
+	/* a key that says RSASSA-PSS in its PEM must come back as one (the restriction is part of the key); a plain RSA key may come
+	 * back as either, because a JWK can only hint at PSS through its alg */
+	if (ba == EVP_PKEY_RSA_PSS && bb == EVP_PKEY_RSA) return;
 	if (ba == EVP_PKEY_RSA_PSS) ba = EVP_PKEY_RSA;
 	if (bb == EVP_PKEY_RSA_PSS) bb = EVP_PKEY_RSA;
 	if (ba != bb) return;
